@@ -17,7 +17,7 @@
 From AK Require Import Base.Prelude Bytes.Text Bytes.FabHeader Bytes.BinFile Bytes.Word
   Reader.Select Reader.BoxRead Reader.Level Reader.ReadSpec Plotfile.Abstract Taste.CompleteProofs
   Writers.Chef Writers.ChefProofs Writers.Chk2plt Writers.Chk2pltProofs Writers.ScatterProofs Writers.Chk2pltLevelProofs
-  Plotfile.TextHeader Plotfile.HeaderSpec Writers.ChkHeader Writers.ChkHeaderProofs.
+  Plotfile.TextHeader Plotfile.HeaderSpec Taste.Taste Writers.ChkHeader Writers.ChkHeaderProofs Writers.Chk2pltTool Writers.Chk2pltToolProofs.
 
 (* Ghost stripping keeps exactly the interior: for every ghost width >= 1 in
    each direction (they may differ), every component c and every interior cell
@@ -305,4 +305,80 @@ Proof.
   split; [repeat constructor|]. split; [repeat constructor|].
   intros lv Hlv. cbn [ex_chk ch_max_level] in Hlv.
   assert (E : lv = 0 \/ lv = 1) by lia. destruct E as [-> | ->]; (split; [repeat constructor|]; split; [reflexivity|]; repeat constructor).
+Qed.
+
+(* ---------------------------------------------------------------------- *)
+(* The whole conversion.  chk2plt_tool (Writers/Chk2pltTool.v) is Chk2plt.__init__ +
+   convert as one function from the checkpoint directory - Header text, per
+   level the binary files and (file, offset) tables of the state / gradp / I_R
+   subsets - to the plotfile directory written.  For every abstract checkpoint
+   (achk: header record + per level a ghosted state level in ANY file layout)
+   whose header is well-formed and three-dimensional, whose component counts
+   add up to the field list, and whose levels meet the hypotheses of the level
+   theorem, the directory written is pf_disk of the converted abstract plotfile
+   conv_pf: the statement of the colander / combine / chef tool theorems
+   (C05_tool, C06_tool, C11_tool).  conv_pf has the fields chk_fields, the
+   checkpoint's levels, boxes and per-level box counts, and box i of level k
+   holds al_comps i - its interior when nothing but the state is converted
+   (C17_level_plain). *)
+Theorem C17_tool : forall whole to_int frepr dx_row bounds species do_gradp do_ir floored y_start nspecies n_state n_gradp n_ir c,
+  wf_chk whole to_int (ac_h c) ->
+  chk_nfields_out n_state n_gradp n_ir do_gradp do_ir = blen (chk_fields species do_gradp do_ir) ->
+  length (grid0 (hd [] (ch_boxes (ac_h c)))) = 3%nat ->
+  length (ac_levels c) = Z.to_nat (ch_max_level (ac_h c) + 1) ->
+  (forall k al, nth_error (ac_levels c) k = Some al -> level_ok do_gradp do_ir floored y_start nspecies c k al) ->
+  chk2plt_tool whole to_int frepr dx_row bounds species do_gradp do_ir floored y_start nspecies n_state n_gradp n_ir (achk_disk c)
+  = Some (pf_disk (conv_pf frepr dx_row bounds species do_gradp do_ir c)).
+Proof.
+  intros whole to_int frepr dx_row bounds species dg di fl ys ns n1 n2 n3 c Hwf Hn Hg Hlen Hlv.
+  exact (chk2plt_refines whole to_int frepr dx_row bounds species dg di fl ys ns n1 n2 n3 c Hwf Hn Hg Hlen Hlv).
+Qed.
+Print Assumptions C17_tool.
+
+(* non-vacuity of C17_tool: a one-level checkpoint, two 1x1x1 boxes stored with one ghost cell (27 cells, the 7
+   state components of a checkpoint without species), box 1 BEFORE box 0 in the one state file; state-only
+   conversion.  The hypotheses hold and the tool model, evaluated, agrees with the theorem's right-hand side. *)
+Definition ex7_state (base : Z) : bytes := concat (map exw (map (fun k => base + Z.of_nat k) (seq 0 189))).
+Definition ex7_slv : level :=
+  {| lv_fabs := [ {| fab_lo := [-1; -1; -1]; fab_hi := [1; 1; 1]; fab_nc := 7; fab_data := ex7_state 0 |};
+                  {| fab_lo := [0; -1; -1]; fab_hi := [2; 1; 1]; fab_nc := 7; fab_data := ex7_state 50 |} ];
+     lv_files := [ (bs "state_D_00000", [1%nat; 0%nat]) ] |}.
+Definition ex7_h : chk_header :=
+  {| ch_version := [bs "Checkpoint"; bs "version:"; bs "1"]; ch_max_level := 0; ch_step := 0; ch_int := None;
+     ch_time := bs "0.0"; ch_dt1 := bs "3.9e-12"; ch_dt2 := bs "3.5e-12";
+     ch_lo := [bs "0"; bs "0"; bs "0"]; ch_hi := [bs "2.0"; bs "1.0"; bs "1.0"];
+     ch_boxes := [ex_boxes];
+     ch_tail := {| ct_pressure := bs "101325.0"; ct_sys := Some 0; ct_typvals := [bs "1.5"; bs "300.0"] |} |}.
+Definition ex7_chk : achk :=
+  {| ac_h := ex7_h;
+     ac_levels := [ {| al_state := ex7_slv; al_gradp_files := []; al_gradp_cells := []; al_ir_files := []; al_ir_cells := [];
+                       al_comps := plain_of 1 ex7_slv |} ] |}.
+Definition ex7_bounds (lv : Z) : list (list (token * token)) :=
+  [[(bs "0.0", bs "1.0"); (bs "0.0", bs "1.0"); (bs "0.0", bs "1.0")];
+   [(bs "1.0", bs "2.0"); (bs "0.0", bs "1.0"); (bs "0.0", bs "1.0")]].
+Example C17_tool_example :
+  wf_chk ex_whole ex_to_int (ac_h ex7_chk) /\
+  chk_nfields_out 7 3 0 false false = blen (chk_fields [] false false) /\
+  length (grid0 (hd [] (ch_boxes (ac_h ex7_chk)))) = 3%nat /\
+  (forall k al, nth_error (ac_levels ex7_chk) k = Some al -> level_ok false false (fun _ => None) 0 0 ex7_chk k al) /\
+  chk2plt_tool ex_whole ex_to_int ex_frepr (fun _ => [bs "1.0"; bs "1.0"; bs "1.0"]) ex7_bounds [] false false (fun _ => None) 0 0 7 3 0
+               (achk_disk ex7_chk)
+  = Some (pf_disk (conv_pf ex_frepr (fun _ => [bs "1.0"; bs "1.0"; bs "1.0"]) ex7_bounds [] false false ex7_chk)).
+Proof.
+  assert (Hwf : wf_chk ex_whole ex_to_int (ac_h ex7_chk)).
+  { unfold wf_chk. cbn [ex7_chk ac_h ex7_h ch_max_level ch_boxes ch_int ch_time ch_dt1 ch_dt2 ch_lo ch_hi ch_tail].
+    split; [lia|]. split; [reflexivity|]. split; [exact I|]. split; [reflexivity|].
+    split; [reflexivity|]. split; [reflexivity|].
+    split; [repeat constructor|]. split; [repeat constructor|].
+    split; [repeat constructor; discriminate|].
+    unfold wf_tail. cbn. repeat split; repeat constructor. }
+  assert (Hlv : forall k al, nth_error (ac_levels ex7_chk) k = Some al -> level_ok false false (fun _ => None) 0 0 ex7_chk k al).
+  { intros [|[|k]] al Hk; cbn in Hk; try discriminate Hk. injection Hk as <-.
+    unfold level_ok. cbv zeta.
+    split; [vm_compute; reflexivity|]. split; [reflexivity|]. split.
+    - intros [|[|i]] Hi; [vm_compute; reflexivity | vm_compute; reflexivity | exfalso; cbn in Hi; lia].
+    - split; [vm_compute; repeat constructor; intros []|].
+      intros [|[|i]] Hi; [vm_compute; reflexivity | vm_compute; reflexivity | exfalso; cbn in Hi; lia]. }
+  split; [exact Hwf|]. split; [reflexivity|]. split; [reflexivity|]. split; [exact Hlv|].
+  apply C17_tool; [exact Hwf | reflexivity | reflexivity | reflexivity | exact Hlv].
 Qed.
